@@ -36,7 +36,7 @@ NewObject == [rlp |-> [EmptyLP EXCEPT !.sense = 1], hasQ |-> FALSE, qlp |-> Empt
               hasBasis |-> FALSE, brow |-> <<>>, bcol |-> <<>>,
               status |-> ST_UNKNOWN, hasSol |-> FALSE,
               ftol |-> "1/1000000", otol |-> "1/1000000", iterlimit |-> -1, ensureray |-> FALSE,
-              offsetPar |-> "0"]
+              offsetPar |-> "0", epsz |-> "1/10000000000000000"]
 
 -----------------------------------------------------------------------------
 \* One modification applied to one LP.  a = action name, g = argument record.
